@@ -13,7 +13,7 @@ CHECKS = {
  "C02": ("model_checking", "bounded symbolic execution of two ingests of the same symbolic row set; table identity decided by SMT through an injective hash UF",
          "Same symbolic rows ingested in two arrival orders, with two independent symbolic run sizes and 1 vs 2 workers, must give byte-identical table objects and identifiers; a one-cell change must give a different identifier. <= 2-3 rows; delimiter/store/machine differences and the CLI's unchanged-file detection are outside.", "4 C02"),
  "C03": ("model_checking", "bounded symbolic execution of the ingest pipeline followed by structural invariants over the stored table, SMT-decided",
-         "For tables produced by the real ingest pipeline (symbolic cells, incl. the 255/256/257-row boundary): row count, block fill, strictly increasing keys, block index maps hash(key)->(hash(row),position) and nothing else, index-from-bytes == index-from-rows, table index = first key per block. Receiver-produced tables are compared byte-for-byte with ingest-produced ones under C07. doctor diagnosis/resolve are outside.", "4 C03"),
+         "For tables produced by the real ingest pipeline (symbolic cells, incl. the 255/256/257-row boundary): row count, block fill, strictly increasing keys, block index maps hash(key)->(hash(row),position) and nothing else, index-from-bytes == index-from-rows, table index = first key per block. The merge-commit path: the table committed by the real runMerge (cmd/wrgl) satisfies the same invariants and Doctor.Diagnose over all refs reports nothing. Receiver-produced tables are compared byte-for-byte with ingest-produced ones under C07; the repository's own diagnosis (diagnoseCommit) is run on ingest output. doctor re-ingest (Resolve) is outside.", "4 C03"),
  "C04": ("model_checking", "bounded symbolic execution of diff.DiffTables on two symbolic tables vs a set-difference oracle; offset arithmetic for all 2^24 x 255 offsets by SMT",
          "Real DiffTables (differ goroutine, window search, block-index lookup) on synthetic small-block tables with symbolic 1-byte keys (strictly increasing per table) and symbolic row sums, 0-2 (quick) / 0-3 (thorough) blocks per side: events = exactly added/removed/modified, no key twice, offsets address the right rows; RowToBlockAndOffset inverse for every offset. CLI rendering is outside.", "4 C04"),
  "C05": ("model_checking", "bounded symbolic execution of CompareColumns + RowResolver.Resolve on symbolic cells over concrete column layouts, and of the whole Merger/RowCollector pipeline on symbolic non-key cells; oracle = cell-wise three-way rule by column name",
@@ -30,8 +30,8 @@ CHECKS = {
          "All DAG shapes with n <= 3 (quick) / 4 (thorough) commits, timestamps as solver variables (equal, reversed, skewed): ancestor <=> reachable; walk visits each ancestor once; merge base is a common ancestor, is the input that is an ancestor of the others, found iff one exists. GetCommit replaced by a table lookup under gosym (real GetCommit in the native replay).", "4 C11"),
  "C12": ("model_checking", "bounded exhaustive exploration of repository shapes through symbolic execution of the real prune.Prune",
          "Repositories of <= 2 (quick) / 3 (thorough) commits over 3 real tables, refs of every kind present/deleted, shallow commits with the absent table sum placed before/after/between the stored keys; reachable commits/tables/indices/blocks survive intact, unreachable commits and their exclusive tables/blocks are gone, prune twice = once, no crash. Mostly exhaustive shape enumeration (stated in evidence).", "4 C12"),
- "C13": ("fault_enumeration", "symbolic execution of commit (ingest+SaveCommit+CommitHead), receive (+ref update) and prune over in-memory stores with the failing write index and fault kind as SMT variables; invariants checked after 'reopen', then re-run",
-         "Every prefix of the store-write sequence of commit (1-2 workers, 1-2 blocks), packfile receive (one or many packfiles) and prune, as process death (no later write takes effect) or a single write error: refs resolve to readable commits, commits have parents, a branch never points at a commit lacking its table, every present table has blocks, block indices and table index; re-running succeeds and ends with the same refs/tables/history as an uninterrupted run. Stores with atomic calls stand in for badger/SQLite; the cobra layer and real process kills are outside.", "4 C13"),
+ "C13": ("fault_enumeration", "symbolic execution of commit (ingest+SaveCommit+CommitHead), merge (the real runMerge of cmd/wrgl), receive (+ref update) and prune over in-memory stores with the failing write index and fault kind as SMT variables; invariants checked after 'reopen', then re-run",
+         "Every prefix of the store-write sequence of commit (1-2 workers, 1-2 blocks), a conflict-free `wrgl merge` (incl. the profile write), packfile receive (one or many packfiles) and prune, as process death (no later write takes effect) or a single write error: refs resolve to readable commits, commits have parents, a branch never points at a commit lacking its table, every present table has blocks, block indices and table index; re-running succeeds and ends with the same refs/tables/history as an uninterrupted run. Stores with atomic calls stand in for badger/SQLite; pull, the rest of the cobra layer and real process kills are outside.", "4 C13"),
  "C14": ("fault_enumeration", "symbolic execution of transaction.Commit/Discard with the failing store-write index and fault kind as SMT variables and the branch visiting order as a choice point",
          "1-2 (quick) / 1-3 (thorough) staged branches (new/existing), fault at every store write (crash or error), then re-run: all-or-nothing, no duplicate commit, one log entry with true old/new per branch; commit/discard after commit are refused and change nothing. In-memory stores with atomic calls stand in for SQLite/badger.", "4 C14"),
  "C15": ("model_checking", "symbolic execution of refsql.filterQuery on a symbolic prefix and ref name; its WHERE clause is evaluated by the documented SQLite operator contract and compared with literal prefix matching by SMT; counterexamples confirmed against real SQLite",
